@@ -92,14 +92,13 @@ Proof. intros. unfold serve_wms. rewrite H. reflexivity. Qed.
 (* ---- make_conditional ---------------------------------------------------------------------------------- *)
 Lemma make_conditional_cases : forall tps r inm ims,
   make_conditional tps r inm ims = Resp r \/
-  make_conditional tps r inm ims = Resp (not_modified r) \/
-  make_conditional tps r inm ims = Err500.
+  make_conditional tps r inm ims = Resp (not_modified r).
 Proof.
   intros. unfold make_conditional.
-  destruct (etag_matches (r_etag r) inm); [right; left; reflexivity|].
+  destruct (etag_matches (r_etag r) inm); [right; reflexivity|].
   destruct (r_ts r); [|left; reflexivity].
-  destruct (parse_httpdate ims); [left; reflexivity| |right; right; reflexivity].
-  destruct (z <=? t * tps); [right; left|left]; reflexivity.
+  destruct (parse_httpdate ims); [left; reflexivity|].
+  destruct (z <=? t * tps); [right|left]; reflexivity.
 Qed.
 
 Lemma make_conditional_304 : forall tps r inm ims r',
@@ -113,13 +112,12 @@ Proof.
   destruct (etag_matches (r_etag r) inm) eqn:E.
   - inversion H; subst. split; [reflexivity|]. left. apply etag_matches_iff. exact E.
   - destruct (r_ts r) as [ts|] eqn:Ets.
-    + destruct (parse_httpdate ims) as [|t|] eqn:Ep.
+    + destruct (parse_httpdate ims) as [|t] eqn:Ep.
       * inversion H; subst. rewrite H200 in H304. discriminate.
       * destruct (ts <=? t * tps) eqn:El.
         -- inversion H; subst. split; [reflexivity|]. right. exists ts, t. repeat split; try reflexivity.
            apply Z.leb_le. exact El.
         -- inversion H; subst. rewrite H200 in H304. discriminate.
-      * discriminate.
     + inversion H; subst. rewrite H200 in H304. discriminate.
 Qed.
 
@@ -135,14 +133,9 @@ Proof.
   intros. unfold make_conditional. rewrite H. cbn [parse_httpdate]. reflexivity.
 Qed.
 
-Lemma make_conditional_no_raise : forall tps r inm ims,
-  parse_httpdate ims <> PRaise -> make_conditional tps r inm ims <> Err500.
+Lemma make_conditional_no_raise : forall tps r inm ims, make_conditional tps r inm ims <> Err500.
 Proof.
-  intros tps r inm ims H. unfold make_conditional.
-  destruct (etag_matches (r_etag r) inm); [discriminate|].
-  destruct (r_ts r); [|discriminate].
-  destruct (parse_httpdate ims); [discriminate| |congruence].
-  destruct (z <=? t * tps); discriminate.
+  intros. destruct (make_conditional_cases tps r inm ims) as [E|E]; rewrite E; discriminate.
 Qed.
 
 (* ---- single request: the property clauses ---------------------------------------------------------------- *)
@@ -188,41 +181,38 @@ Proof.
   - rewrite !serve_uncacheable by assumption. reflexivity.
 Qed.
 
+(* no conditional header can make a tile request fail *)
 Lemma serve_no_500 : forall svc h tps max_age ti body inm ims,
-  parse_httpdate ims <> PRaise -> serve svc h tps max_age ti body inm ims <> Err500.
+  serve svc h tps max_age ti body inm ims <> Err500.
 Proof.
   intros. destruct (ti_cacheable ti) eqn:Hc.
-  - rewrite serve_cacheable by assumption. apply make_conditional_no_raise. assumption.
+  - rewrite serve_cacheable by assumption. apply make_conditional_no_raise.
   - rewrite serve_uncacheable by assumption. discriminate.
 Qed.
 
-(* the defect: a date that email.utils.parsedate accepts but datetime.date rejects (year > 9999) makes
-   parse_httpdate raise, and the request is answered 500 instead of ignoring the header *)
-Lemma out_of_range_date_500 :
-  exists svc h tps max_age ti body inm ims,
-    ti_cacheable ti = true /\ serve svc h tps max_age ti body inm ims = Err500.
+(* a date that email.utils.parsedate accepts but datetime.date rejects (year > 9999, after the repair of F18):
+   parse_httpdate returns None *)
+Lemma parse_out_of_range : forall y mo d hh mi ss,
+  9999 < y -> parse_httpdate (ImsDate y mo d hh mi ss) = PNone.
 Proof.
-  exists TMS, (fun s => s), 1, (Some 60),
-    {| ti_cacheable := true; ti_ts := Some {| st_ticks := 1700000000; st_repr := [49] |}; ti_size := Some 100 |},
-    7, None, (ImsDate 10000 10 1 0 0 0).
-  split; reflexivity.
+  intros y mo d hh mi ss Hy. unfold parse_httpdate.
+  replace (y <? 1970) with false by (symmetry; apply Z.ltb_ge; lia).
+  replace (9999 <? y) with true by (symmetry; apply Z.ltb_lt; lia).
+  rewrite orb_true_r. reflexivity.
 Qed.
 
-Lemma parse_in_range : forall y mo d hh mi ss,
-  0 <= y <= 9999 -> 1 <= mo <= 12 ->
-  exists t, parse_httpdate (ImsDate y mo d hh mi ss) = PSome t.
-Proof.
-  intros y mo d hh mi ss Hy Hm. unfold parse_httpdate.
-  destruct (y <? 1970) eqn:E.
-  - apply Z.ltb_lt in E.
-    replace ((y + 2000 <? 1) || (9999 <? y + 2000) || (mo <? 1) || (12 <? mo)) with false.
-    + eexists; reflexivity.
-    + symmetry. repeat (apply orb_false_iff; split); apply Z.ltb_ge; lia.
-  - apply Z.ltb_ge in E.
-    replace ((y <? 1) || (9999 <? y) || (mo <? 1) || (12 <? mo)) with false.
-    + eexists; reflexivity.
-    + symmetry. repeat (apply orb_false_iff; split); apply Z.ltb_ge; lia.
-Qed.
+Lemma serve_out_of_range_date : forall svc h tps max_age ti body inm y mo d hh mi ss,
+  9999 < y ->
+  serve svc h tps max_age ti body inm (ImsDate y mo d hh mi ss) = serve svc h tps max_age ti body inm ImsAbsent.
+Proof. intros. apply serve_malformed_date. apply parse_out_of_range. assumption. Qed.
+
+Example ex_out_of_range :
+  serve TMS (fun s => s) 1 (Some 60)
+        {| ti_cacheable := true; ti_ts := Some {| st_ticks := 1700000000; st_repr := [49] |}; ti_size := Some 100 |}
+        7 None (ImsDate 10000 10 1 0 0 0)
+  = Resp (full_resp (fun s => s) 1 (Some 60)
+        {| ti_cacheable := true; ti_ts := Some {| st_ticks := 1700000000; st_repr := [49] |}; ti_size := Some 100 |} 7).
+Proof. reflexivity. Qed.
 
 (* ---- stores ------------------------------------------------------------------------------------------------ *)
 Lemma lookup_remove_same : forall st k, lookup (remove st k) k = None.
@@ -295,8 +285,8 @@ Proof.
   rewrite serve_cacheable by reflexivity. reflexivity.
 Qed.
 
-(* the answer to a request for a stored tile is the full answer (200 + body), the same validators with 304 and
-   no body, or (out-of-range date, see out_of_range_date_500) an error *)
+(* the answer to a request for a stored tile is the full answer (200 + body) or the same validators with 304 and
+   no body *)
 Definition answer_for (h : str -> str) (tps : Z) (e : entry) (r : resp) : Prop :=
   r_etag r = Some (etag_of_entry h e) /\ r_lastmod r = lastmod_of_entry tps e /\ r_nostore r = false /\
   ((r_status r = 200 /\ r_body r = Some (e_body e)) \/ (r_status r = 304 /\ r_body r = None /\ r_ctype r = false)).
@@ -315,7 +305,7 @@ Lemma step_req_cached_answer : forall h tps ma st svc k inm ims up e st' r,
 Proof.
   intros h tps ma st svc k inm ims up e st' r H Hs.
   rewrite (step_req_cached h tps ma st svc k inm ims up e H) in Hs. inversion Hs; subst. split; [reflexivity|].
-  destruct (make_conditional_cases tps (full_resp h tps ma (info_of_entry e) (e_body e)) inm ims) as [E|[E|E]];
+  destruct (make_conditional_cases tps (full_resp h tps ma (info_of_entry e) (e_body e)) inm ims) as [E|E];
     rewrite E in H2; inversion H2; subst.
   - apply answer_full.
   - apply answer_304.
@@ -334,13 +324,6 @@ Proof.
   rewrite (step_req_cached h tps max_age st svc k (Some (etag_of_entry h e)) ims up e H).
   rewrite (make_conditional_etag_match tps (full_resp h tps max_age (info_of_entry e) (e_body e))
              (etag_of_entry h e) ims eq_refl). reflexivity.
-Qed.
-
-Lemma serve_in_range_no_500 : forall svc h tps max_age ti body inm y mo d hh mi ss,
-  0 <= y <= 9999 -> 1 <= mo <= 12 ->
-  serve svc h tps max_age ti body inm (ImsDate y mo d hh mi ss) <> Err500.
-Proof.
-  intros. apply serve_no_500. destruct (parse_in_range y mo d hh mi ss H H0) as [t Ht]. rewrite Ht. discriminate.
 Qed.
 
 (* validators_stable over histories *)
@@ -374,18 +357,17 @@ Lemma stale_validators_200 : forall h tps ma st svc k inm ims up e',
   lookup st k = Some e' ->
   inm <> Some (etag_of_entry h e') ->
   (forall t, parse_httpdate ims = PSome t -> t * tps < st_ticks (e_ts e')) ->
-  parse_httpdate ims <> PRaise ->
   step h tps ma st (Req svc k inm ims up)
   = (st, Some (Resp (full_resp h tps ma (info_of_entry e') (e_body e')))).
 Proof.
-  intros h tps ma st svc k inm ims up e' H Hinm Hims Hr.
+  intros h tps ma st svc k inm ims up e' H Hinm Hims.
   rewrite (step_req_cached h tps ma st svc k inm ims up e' H). f_equal. f_equal.
   unfold make_conditional.
   destruct (etag_matches _ inm) eqn:E.
   - apply etag_matches_iff in E. destruct E as [a [Ha Hi]]. cbn in Ha. inversion Ha; subst.
     exfalso. apply Hinm. reflexivity.
   - destruct (r_ts _) as [ts|] eqn:Ets; [|reflexivity].
-    destruct (parse_httpdate ims) as [|t|] eqn:Ep; [reflexivity| |congruence].
+    destruct (parse_httpdate ims) as [|t] eqn:Ep; [reflexivity|].
     cbn [full_resp r_ts info_of_entry ti_ts] in Ets. apply rts_of_some in Ets.
     destruct Ets as [s [Hs [Hk _]]]. inversion Hs; subst.
     specialize (Hims t eq_refl). destruct (st_ticks (e_ts e') <=? t * tps) eqn:El; [|reflexivity].
@@ -436,7 +418,6 @@ Proof.
   - intros t Ht. rewrite Hp in Ht. inversion Ht; subst.
     pose proof (Z.div_mod (st_ticks (e_ts e)) tps ltac:(lia)) as Hdm.
     pose proof (Z.mod_pos_bound (st_ticks (e_ts e)) tps Htps) as Hb. lia.
-  - rewrite Hp. discriminate.
 Qed.
 
 (* uncached tile, upstream error mapped to an uncached fill image: nothing is stored, no-store answer *)
